@@ -45,7 +45,7 @@ def evalRecipe (st : DState) (toks : List String) (impl : String) : Eval :=
   | "wr" :: rest => evalWriter st rest
   | "map" :: rest => evalMap st rest
   | "mmap" :: rest => evalMmap st rest
-  | "tmp" :: rest => evalTmp st rest
+  | "tmp" :: rest => evalTmp st rest impl
   | ["drop", _] => { st := st, model := "ok", spec := some "ok" }
   | _ => { st := st, model := "driver:unknown-op" }
 
